@@ -76,7 +76,7 @@ THEOREMS = {
     "probe": [_P + "test_eq", _P + "uncheckedTest_eq", _P + "getConst_eq", _P + "refGet_eq", _P + "refNot_eq"],
     "eq": [_P + "eq_eq"], "to_ullong": [_P + "toUnsigned_eq", _P + "toUnsigned_overflow", _P + "toUnsigned_narrow"],
     "to_ulong": [_P + "toUnsigned_eq", _P + "toUnsigned_overflow", _P + "toUnsigned_narrow"],
-    "to_string": [_P + "toStr_eq", _P + "toStrD_eq"],
+    "to_string": [_P + "toStr_eq", _P + "toStrD_eq", _P + "toStr_exact_capacity"],
 }
 SEARCH_CAP = 20000
 
